@@ -270,7 +270,8 @@ def names_rules(facts, rep):
                     "name index is not recorded as the position the entry is about to occupy")
     bn = facts.one(ZA + "by_name_with_optional_password$")
     ras = ret_alts(bn)
-    good = any(a[0] == "agg" and a[1] == "adt:Err" and any(x[0] == "agg" and x[1] == "adt:FileNotFound" for x in walk(a)) for a in ras) and \
+    good = any(((a[0] == "agg" and a[1] == "adt:Err") or a[0] == "errprop") and any(x[0] == "agg" and x[1] == "adt:FileNotFound" for x in walk(a)) and
+               (a[0] != "errprop" or any(x[0] == "call" and re.search(r"HashMap.*::get$", x[1]) and ".names_map" in tokens(x) for x in walk(a))) for a in ras) and \
         any(x[0] == "call" and x[1].endswith("by_index_with_optional_password") for a in ras for x in walk(a))
     ok &= rep.check(good, rule, "by_name-not-found", where(bn, bn.span), "absent name -> FileNotFound; present -> by index", "by_name lookup no longer yields FileNotFound for an absent name")
     exb = Ex(bn)
